@@ -7,7 +7,7 @@ from bounded import common, ref
 from bounded.common import JaqalError
 
 RULE = ("grammar-guided mutants of random programs (token deleted / duplicated / swapped / replaced by punctuation, keywords, numbers, illegal "
-        "characters; truncation at every token; unterminated blocks and comments; negative / zero loop counts; let-valued sizes and indices; "
+        "characters; truncation at every token; unterminated blocks and comments - also followed by dozens of lines; numeric literals beyond the float range wherever a number may stand; negative / zero loop counts; let-valued sizes and indices; "
         "calls with too few / too many / no arguments; alias chains; programs without a register), handed to parse_jaqal_string and, when they "
         "parse, to run_jaqal_circuit, fill_in_let, expand_macros, get_used_qubit_indices, generate; allowed outcomes: a result, JaqalError "
         "(JaqalParseError with integer line/column inside the text for syntax errors), ImportError for an unknown pulse module; 5 s watchdog; "
@@ -39,6 +39,14 @@ FIXED = [
     "register q[2]\nmap a q[0:3:0]\nprepare_all\nX a[0]\nmeasure_all\n", "register q[2]\nsubcircuit { subcircuit { X q[0] } }\n",
     "register q[2]\n< subcircuit { X q[0] } >\n", "register q[2]\nbranch { '0' : { X q[0] } }\n", "register q[1.5]\n", "let x 1.5\nregister q[x]\nprepare_all\nmeasure_all\n",
     "register q[2]\nprepare_all\nloop 1.5 { X q[0] }\nmeasure_all\n", "let c 0.5\nregister q[2]\nprepare_all\nloop c { X q[0] }\nmeasure_all\n",
+    # numeric literals at the edge of the float range, wherever a number may stand
+    "let big 1e999\nregister q[2]\nprepare_all\nmeasure_all\n", "let x -1e400\nregister q[2]\nprepare_all\nRx q[0] x\nmeasure_all\n",
+    "let big 1e999\nregister q[big]\n", "register q[2]\nprepare_all\nloop 1e999 { X q[0] }\nmeasure_all\n", "let n 1e999\nregister q[2]\nprepare_all\nloop n { X q[0] }\nmeasure_all\n",
+    "register q[2]\nprepare_all\nRx q[0] 1e999\nmeasure_all\n", "register q[2]\nprepare_all\nX q[1e999]\nmeasure_all\n", "register q[2]\nmap a q[0:1e999]\n",
+    "register q[2]\nprepare_all\nX q[99999999999999999999]\nmeasure_all\n", "let t 1e-999\nregister q[2]\nprepare_all\nRx q[0] t\nmeasure_all\n",
+    # unterminated block comments followed by many lines (a lexer pattern that backtracks does not return)
+    "register q[2]\n/* never closed\n" + "X q[0]\n" * 30, "register q[2]\nprepare_all\n/* never closed\n" + "* x *\n" * 60, "/*" + "\n" * 80,
+    "register q[2]\n/* closed */ /* never closed " + "a*b/\n" * 40, "// line\n" * 50 + "/* open\n" * 40,
 ]
 
 
